@@ -44,6 +44,25 @@ let outcome_string (feats : string) (n3 : int) (names : bool) : string =
     if n3 = 0 then "0:"
     else Printf.sprintf "%d:%s" n3 (if names then String.concat "," (List.map string_of_name fs) else "")
 
+let kind_of_string = function
+  | "double" -> KDouble | "float" -> KFloat | "int32" -> KInt32 | "int64" -> KInt64 | "uint32" -> KUint32 | "uint64" -> KUint64
+  | "sint32" -> KSint32 | "sint64" -> KSint64 | "fixed32" -> KFixed32 | "fixed64" -> KFixed64 | "sfixed32" -> KSfixed32
+  | "sfixed64" -> KSfixed64 | "bool" -> KBool | "string" -> KString | "bytes" -> KBytes | "enum" -> KEnum
+  | s -> failwith ("kind " ^ s)
+
+let fspec_of_string (s : string) =
+  match String.split_on_char ':' s with
+  | [ k; sh; one ] ->
+    let fk = (match k with "msg" -> FMsg | "group" -> FGroup | _ -> FK (kind_of_string k)) in
+    let shape =
+      if sh = "s" then SSingular else if sh = "o" then SOptional else if sh = "p" then SPacked else if sh = "u" then SUnpacked
+      else if String.length sh > 2 && String.sub sh 0 2 = "m." then SMap (kind_of_string (String.sub sh 2 (String.length sh - 2)))
+      else failwith ("shape " ^ sh) in
+    let o = if one = "-" then None else Some (n_of_int (int_of_string one)) in
+    law "valid_combo" (valid_combo fk shape (o <> None));
+    ((fk, shape), o)
+  | _ -> failwith ("field spec " ^ s)
+
 let gen_eval (fn : string) (args : string list) : string =
   match fn, args with
   | "GENID", [ "md"; g ] -> let g = name_of_string (unbr g) in law "go_ok" (go_ok g); string_of_name (md_ident g)
@@ -74,6 +93,10 @@ let gen_eval (fn : string) (args : string list) : string =
      | Some m -> law "descriptor_path" (mt_name m = last p)
      | None -> law "descriptor_path_found" false);
     (match msg_index tops p with Some i -> string_of_int (int_of_n i) | None -> "panic")
+  | "GENSIZEBR", [ spec ] ->
+    let spec = unbr spec in
+    let fields = if spec = "" then [] else List.map fspec_of_string (String.split_on_char ' ' spec) in
+    (match size_method_opens fields with Some n -> string_of_int (int_of_n n) | None -> "panic")
   | _ -> raise Not_found
 
 let () = Driver.register gen_eval
